@@ -1,5 +1,6 @@
 import MirVerif.Model.BinIORead
 import MirVerif.Gen.C11_Tables
+import MirVerif.Model.BinIOCounters
 /-! line-protocol driver for property C11 (binary MIR, raw token stream).
 
 Commands on stdin (one per line):
@@ -8,6 +9,7 @@ Commands on stdin (one per line):
 * `read <hex>`                          → description lines, `end`   or `error <msg>`, `end`
 * `tok uint|int|flt|dbl|ldbl|type <v>` / `tok idx <base> <i>` → `bytes <hex>`
 * `readx <flags> <hex>`                 → as `read`, with the quirks named in flags (g,c,p) off
+* `ctr <hex>`                           → temp-name counters of the modules read, `end`
 * `rtok <hex>`                          → one line describing `readToken`'s result
 * `len <v>`                             → `uint_length int_length`
 The description format is the one printed by harness/c11_harness.c (`dump_modules`). -/
@@ -324,6 +326,20 @@ partial def loop (h : IO.FS.Stream) : IO Unit := do
       | .error e => IO.println ("error " ++ e); IO.println "end"
       | .ok ms =>
         for l in showModules ms do IO.println l
+        IO.println "end"
+  | ["ctr", hex] =>
+    match bytesOfHex hex with
+    | none => IO.println "error bad hex"; IO.println "end"
+    | some bs =>
+      match readModules cfg bs with
+      | .error e => IO.println ("error " ++ e); IO.println "end"
+      | .ok ms =>
+        for m in ms do
+          IO.println s!"ctr module {showX m.name} {moduleCounter m}"
+          for it in m.items do
+            match it with
+            | .func f => IO.println s!"ctr func {showX f.name} {funcCounter f}"
+            | _ => pure ()
         IO.println "end"
   | ["readx", flags, hex] =>
     match bytesOfHex hex with
